@@ -93,23 +93,26 @@ macro_rules! structure_list_harness {
         }
     };
 }
-/// Checks the leaf log against `items` and the single `rlp::list` call against the placeholders in order.
+/// Checks the single `rlp::list` call against `items`: the placeholder at list position j identifies the leaf-encoder call that
+/// produced it, and THAT call must have been given the j-th specified field. (The order in which the code happens to evaluate the
+/// leaves is irrelevant; only the order of the list is specified.)
 fn expect_list_encoding(items: &[Item], ty: Option<u8>, out: &[u8]) {
+    if !stubs_active() {
+        return native_expect(items, ty, out);
+    }
     unsafe {
-        assert!(LOG_N == items.len(), "number of encoded fields");
-        let mut i = 0;
-        while i < items.len() {
-            assert!(LOG_KIND[i] == items[i].kind, "field kind (integer / byte string / access list)");
-            assert!(LOG_LEN[i] == items[i].len, "field length");
-            assert!(eq32(&LOG_VAL[i], &items[i].val), "field value or field order differs");
-            i += 1;
-        }
         assert!(LIST_CALLS == 1, "the payload is one RLP list");
         assert!(LIST_N == items.len(), "number of list items");
-        let mut i = 0;
-        while i < items.len() {
-            assert!(LIST_LEN[i] == 1 && LIST_FIRST[i] == (i + 1) as u8, "fields are not put into the list in order");
-            i += 1;
+        let mut j = 0;
+        while j < items.len() {
+            assert!(LIST_LEN[j] == 1, "list item is not one encoded leaf");
+            let p = LIST_FIRST[j] as usize;
+            assert!(p >= 1 && p <= LOG_N, "list item is not the output of a leaf encoder");
+            let l = p - 1;
+            assert!(LOG_KIND[l] == items[j].kind, "field kind (integer / byte string / access list)");
+            assert!(LOG_LEN[l] == items[j].len, "field length");
+            assert!(eq32(&LOG_VAL[l], &items[j].val), "field value or field order differs");
+            j += 1;
         }
     }
     match ty {
@@ -124,30 +127,84 @@ struct Item {
     kind: u8,
     val: [u8; 32],
     len: usize,
+    /// the whole byte string (only read by the native reference encoder, for strings longer than 32 bytes)
+    ptr: *const u8,
 }
 fn u(v: U256) -> Item {
-    Item { kind: K_UINT, val: v.to_be_bytes(), len: 32 }
+    Item { kind: K_UINT, val: v.to_be_bytes(), len: 32, ptr: core::ptr::null() }
 }
 fn b(bytes: &[u8]) -> Item {
-    Item { kind: K_BYTES, val: head32(bytes), len: bytes.len() }
+    Item { kind: K_BYTES, val: head32(bytes), len: bytes.len(), ptr: bytes.as_ptr() }
 }
 fn al(n: usize) -> Item {
-    Item { kind: K_ALIST, val: [0; 32], len: n }
+    Item { kind: K_ALIST, val: [0; 32], len: n, ptr: core::ptr::null() }
+}
+
+// ------------------------------------------------------------------------------------------------
+// Native replay (no stubs): an independent reference RLP encoder. Under concrete playback the real leaf encoders and
+// the real `rlp::list` run, so a counterexample is confirmed by comparing the REAL output bytes with the reference
+// encoding of the expected items -- not by looking at the (then empty) recorder logs.
+fn ref_header(base: u8, len: usize, out: &mut Vec<u8>) {
+    if len < 56 {
+        out.push(base + len as u8);
+    } else {
+        let be = len.to_be_bytes();
+        let skip = be.iter().take_while(|x| **x == 0).count();
+        out.push(base + 55 + (8 - skip) as u8);
+        out.extend_from_slice(&be[skip..]);
+    }
+}
+fn ref_string(bytes: &[u8], out: &mut Vec<u8>) {
+    if bytes.len() == 1 && bytes[0] < 0x80 {
+        out.push(bytes[0]);
+    } else {
+        ref_header(0x80, bytes.len(), out);
+        out.extend_from_slice(bytes);
+    }
+}
+fn ref_list(payload: &[u8], out: &mut Vec<u8>) {
+    ref_header(0xc0, payload.len(), out);
+    out.extend_from_slice(payload);
+}
+/// reference encoding of the access lists these harnesses use: entry k has the address [7 + k; 20] and no storage keys
+fn ref_plain_access_list(n: usize, out: &mut Vec<u8>) {
+    let mut entries = Vec::new();
+    for k in 0..n {
+        let mut entry = Vec::new();
+        ref_string(&[7 + k as u8; 20], &mut entry);
+        ref_list(&[], &mut entry);
+        ref_list(&entry, &mut entries);
+    }
+    ref_list(&entries, out);
+}
+fn native_expect(items: &[Item], ty: Option<u8>, out: &[u8]) {
+    let mut payload = Vec::new();
+    for it in items {
+        match it.kind {
+            K_UINT => {
+                let skip = it.val.iter().take_while(|x| **x == 0).count();
+                ref_string(&it.val[skip..], &mut payload);
+            }
+            K_BYTES => {
+                let full = if it.len == 0 { &[][..] } else { unsafe { core::slice::from_raw_parts(it.ptr, it.len) } };
+                ref_string(full, &mut payload);
+            }
+            _ => ref_plain_access_list(it.len, &mut payload),
+        }
+    }
+    let mut expected = Vec::new();
+    if let Some(t) = ty {
+        expected.push(t);
+    }
+    ref_list(&payload, &mut expected);
+    assert!(out == &expected[..], "emitted bytes differ from the reference RLP encoding of the specified fields");
 }
 
 /// Checks the recorder log from `from` on against `items`, and `out` against
 /// `type byte? || list header(count) || placeholders from+1..`.
 fn expect_encoding(from: usize, items: &[Item], ty: Option<u8>, out: &[u8]) {
-    unsafe {
-        assert!(LOG_N == from + items.len(), "number of encoded fields");
-        let mut i = 0;
-        while i < items.len() {
-            let l = from + i;
-            assert!(LOG_KIND[l] == items[i].kind, "field kind (integer / byte string / access list)");
-            assert!(LOG_LEN[l] == items[i].len, "field length");
-            assert!(eq32(&LOG_VAL[l], &items[i].val), "field value or field order differs");
-            i += 1;
-        }
+    if !stubs_active() {
+        return native_expect(items, ty, out);
     }
     let skip = if let Some(t) = ty {
         assert!(out[0] == t, "transaction type byte");
@@ -157,10 +214,18 @@ fn expect_encoding(from: usize, items: &[Item], ty: Option<u8>, out: &[u8]) {
     };
     assert!(out.len() == skip + 1 + items.len(), "output length");
     assert!(out[skip] == 0xc0 + items.len() as u8, "list header");
-    let mut i = 0;
-    while i < items.len() {
-        assert!(out[skip + 1 + i] == (from + i + 1) as u8, "fields are not emitted in order");
-        i += 1;
+    unsafe {
+        // the placeholder at list position i identifies the leaf-encoder call that produced it (evaluation order is irrelevant)
+        let mut i = 0;
+        while i < items.len() {
+            let p = out[skip + 1 + i] as usize;
+            assert!(p >= from + 1 && p <= LOG_N, "list item is not the output of a leaf encoder of this encoding");
+            let l = p - 1;
+            assert!(LOG_KIND[l] == items[i].kind, "field kind (integer / byte string / access list)");
+            assert!(LOG_LEN[l] == items[i].len, "field length");
+            assert!(eq32(&LOG_VAL[l], &items[i].val), "field value or field order differs");
+            i += 1;
+        }
     }
 }
 
@@ -399,9 +464,16 @@ structure_harness! { #[kani::unwind(15)] fn c06_signing_message_eip1559() { chec
 // The same for the typed kinds with `rlp::list` as a recorder: the digest is one Keccak over exactly what the
 // per-type encoder returns for `None` (type byte || the list), and the list is built from the same leaves.
 fn check_signing_message_list(kind: u8) {
+    check_signing_message_list_with(kind, true)
+}
+fn check_signing_message_list_with(kind: u8, has_chain: bool) {
         let data: [u8; 2] = kani::any();
         let chain = any_u256();
         let tx = match kind {
+            0 => Transaction::Legacy(LegacyTransaction {
+                nonce: any_u256(), gas_price: any_u256(), gas: any_u256(), to: any_to(), value: any_u256(),
+                data: data.to_vec(), chain_id: if has_chain { Some(chain) } else { None },
+            }),
             1 => Transaction::Eip2930(Eip2930Transaction {
                 chain_id: chain, nonce: any_u256(), gas_price: any_u256(), gas: any_u256(), to: any_to(),
                 value: any_u256(), data: data.to_vec(), access_list: AccessList(vec![]),
@@ -418,20 +490,32 @@ fn check_signing_message_list(kind: u8) {
             Transaction::Eip1559(t) => t.rlp_encode(None),
         };
         let fields = unsafe { LOG_N };
+        let first_run = unsafe { LIST_FIRST };
         let digest = tx.signing_message();
         kani::cover!(true, "reached");
         if stubs_active() {
             assert!(digest_calls() == 1, "exactly one Keccak invocation");
-            assert!(unsigned.len() == 2 && unsigned[0] == kind && unsigned[1] == 0xee);
-            digest_expect80(0, &[kind, 0xee], &digest.0);
+            if kind == 0 {
+                assert!(unsigned.len() == 1 && unsigned[0] == 0xee);
+                assert!(fields == if has_chain { 9 } else { 6 }, "EIP-155: (chainId, 0, 0) appended iff a chain id is present");
+                digest_expect80(0, &[0xee], &digest.0);
+            } else {
+                assert!(unsigned.len() == 2 && unsigned[0] == kind && unsigned[1] == 0xee);
+                digest_expect80(0, &[kind, 0xee], &digest.0);
+            }
             unsafe {
                 assert!(LIST_CALLS == 2 && LIST_N == fields, "the signed payload is one list of the same fields");
                 assert!(LOG_N == 2 * fields);
                 let mut i = 0;
-                while i < fields {
-                    assert!(LIST_LEN[i] == 1 && LIST_FIRST[i] == (fields + i + 1) as u8, "signed payload: field order");
-                    assert!(LOG_KIND[i] == LOG_KIND[fields + i] && LOG_LEN[i] == LOG_LEN[fields + i]);
-                    assert!(eq32(&LOG_VAL[i], &LOG_VAL[fields + i]), "signed payload differs from the unsigned encoding");
+                while i < MAXITEMS {
+                    if i < fields {
+                        // leaf behind list position i in the unsigned encoding and in the hashed payload
+                        let l1 = first_run[i] as usize - 1;
+                        let l2 = LIST_FIRST[i] as usize - 1;
+                        assert!(LIST_LEN[i] == 1 && l1 < fields && l2 >= fields && l2 < 2 * fields, "hashed payload: list of leaves");
+                        assert!(LOG_KIND[l1] == LOG_KIND[l2] && LOG_LEN[l1] == LOG_LEN[l2]);
+                        assert!(eq32(&LOG_VAL[l1], &LOG_VAL[l2]), "signed payload differs from the unsigned encoding");
+                    }
                     i += 1;
                 }
             }
@@ -439,6 +523,8 @@ fn check_signing_message_list(kind: u8) {
             assert!(digest == Digest::of(&unsigned), "signing digest is not Keccak-256 of the unsigned payload");
         }
 }
+structure_list_harness! { #[kani::unwind(15)] fn c06l_signing_message_legacy_nochain() { check_signing_message_list_with(0, false) } }
+structure_list_harness! { #[kani::unwind(15)] fn c06l_signing_message_legacy_chain() { check_signing_message_list_with(0, true) } }
 structure_list_harness! { #[kani::unwind(15)] fn c06l_signing_message_eip2930() { check_signing_message_list(1) } }
 structure_list_harness! { #[kani::unwind(15)] fn c06l_signing_message_eip1559() { check_signing_message_list(2) } }
 
@@ -480,6 +566,10 @@ structure_list_harness! {
         kani::cover!(kind == 0, "legacy");
         kani::cover!(kind == 1, "EIP-2930");
         kani::cover!(kind == 2, "EIP-1559");
+        if !stubs_active() {
+            assert!(out == direct, "encode() is not the per-type encoding with the signature");
+            return;
+        }
         assert!(out.len() == direct.len() && out[0] == direct[0], "encode() is not the per-type encoding");
         assert!(kind == 0 || (out.len() == 2 && out[0] == kind && out[1] == 0xee));
         unsafe {
@@ -708,9 +798,46 @@ fn list2_stub(items: &[&[u8]]) -> Vec<u8> {
         vec![0xe0 + k as u8]
     }
 }
+/// `rlp::iter` as a recorder with the same log as `list2_stub`: drives the iterator (so the closures that encode the
+/// entries run), notes the placeholders it yields, returns a fresh placeholder. Its contract -- the list of the yielded
+/// items in iteration order -- is decided in c07_iter_*.
+fn iter2_stub<U, I>(items: I) -> Vec<u8>
+where
+    U: AsRef<[u8]>,
+    I: IntoIterator<Item = U>,
+{
+    let mut firsts = [0u8; 4];
+    let mut one = true;
+    let mut n = 0;
+    for item in items {
+        let b = item.as_ref();
+        assert!(n < 4, "more items in one list than the harness bound allows");
+        firsts[n] = if b.len() > 0 { b[0] } else { 0 };
+        if b.len() != 1 { one = false; }
+        n += 1;
+    }
+    unsafe {
+        let k = L2_CALLS;
+        assert!(k < MAXCALLS, "more lists than an access list of this shape has");
+        L2_N[k] = n;
+        L2_ITEMS[k] = firsts;
+        L2_ONE[k] = one;
+        L2_CALLS = k + 1;
+        vec![0xe0 + k as u8]
+    }
+}
+
 fn check_alist_structure<const E: usize, const S0: usize, const S1: usize>() {
-        let addrs: [[u8; 20]; 2] = kani::any();
-        let slots: [[[u8; 32]; 2]; 2] = kani::any();
+        // separate arrays, copied into the nested ones: comparing against a sub-array of a nested symbolic array
+        // (`&slots[0][1]`) through 16-byte loads gave a spurious counterexample in CBMC 6.11 (per-byte comparisons held)
+        let a0: [u8; 20] = kani::any();
+        let a1: [u8; 20] = kani::any();
+        let s00: [u8; 32] = kani::any();
+        let s01: [u8; 32] = kani::any();
+        let s10: [u8; 32] = kani::any();
+        let s11: [u8; 32] = kani::any();
+        let addrs: [&[u8; 20]; 2] = [&a0, &a1];
+        let slots: [[&[u8; 32]; 2]; 2] = [[&s00, &s01], [&s10, &s11]];
         let entries: usize = E;
         let counts: [usize; 2] = [S0, S1];
         let mut v = Vec::with_capacity(2);
@@ -719,15 +846,33 @@ fn check_alist_structure<const E: usize, const S0: usize, const S1: usize>() {
             let mut sl = Vec::with_capacity(2);
             let mut k = 0;
             while k < counts[e] {
-                sl.push(StorageSlot(slots[e][k]));
+                sl.push(StorageSlot(*slots[e][k]));
                 k += 1;
             }
-            v.push((Address(addrs[e]), sl));
+            v.push((Address(*addrs[e]), sl));
             e += 1;
         }
         unsafe { LOG_N = 0; L2_CALLS = 0; }
         let out = AccessList(v).rlp_encode();
         kani::cover!(true, "reached");
+        if !stubs_active() {
+            // native replay: the real encoders ran; compare with the reference encoding of [[address, [key, ...]], ...]
+            let mut all = Vec::new();
+            for e in 0..E {
+                let mut keys = Vec::new();
+                for k in 0..counts[e] {
+                    ref_string(slots[e][k], &mut keys);
+                }
+                let mut entry = Vec::new();
+                ref_string(addrs[e], &mut entry);
+                ref_list(&keys, &mut entry);
+                ref_list(&entry, &mut all);
+            }
+            let mut expected = Vec::new();
+            ref_list(&all, &mut expected);
+            assert!(out == expected, "access list encoding differs from the reference encoding of [[address, [keys]], ...]");
+            return;
+        }
         unsafe {
             let mut leaf = 0; // next expected leaf-log index
             let mut call = 0; // next expected list call
@@ -738,7 +883,7 @@ fn check_alist_structure<const E: usize, const S0: usize, const S1: usize>() {
                     // address leaf
                     assert!(LOG_KIND[leaf] == K_BYTES && LOG_LEN[leaf] == 20, "entry does not start with the 20-byte address");
                     let mut a32 = [0u8; 32];
-                    copy_bytes(&mut a32, &addrs[e]);
+                    copy_bytes(&mut a32, addrs[e]);
                     assert!(eq32(&LOG_VAL[leaf], &a32), "address differs / entries out of order");
                     let addr_ph = (leaf + 1) as u8;
                     leaf += 1;
@@ -748,7 +893,7 @@ fn check_alist_structure<const E: usize, const S0: usize, const S1: usize>() {
                     while k < 2 {
                         if k < counts[e] {
                             assert!(LOG_KIND[leaf] == K_BYTES && LOG_LEN[leaf] == 32, "storage key is not a 32-byte string");
-                            assert!(eq32(&LOG_VAL[leaf], &slots[e][k]), "storage key differs / keys out of order");
+                            assert!(eq32(&LOG_VAL[leaf], slots[e][k]), "storage key differs / keys out of order (sorted? de-duplicated?)");
                             key_ph[k] = (leaf + 1) as u8;
                             leaf += 1;
                         }
@@ -785,6 +930,21 @@ macro_rules! alist_structure_harness {
             fn $name() { check_alist_structure::<$e, $s0, $s1>() }
         }
     )*};
+}
+macro_rules! alist_iter_harness {
+    ($($name:ident = ($e:expr, $s0:expr, $s1:expr);)*) => {$(
+        crate::verif_harness! {
+            #[kani::stub(crate::transaction::rlp::bytes, bytes_stub)]
+            #[kani::stub(crate::transaction::rlp::list, list2_stub)]
+            #[kani::stub(crate::transaction::rlp::iter, iter2_stub)]
+            #[kani::unwind(6)]
+            fn $name() { check_alist_structure::<$e, $s0, $s1>() }
+        }
+    )*};
+}
+alist_iter_harness! {
+    c06i_alist_0_0_0 = (0, 0, 0); c06i_alist_1_0_0 = (1, 0, 0); c06i_alist_1_1_0 = (1, 1, 0); c06i_alist_1_2_0 = (1, 2, 0);
+    c06i_alist_2_1_0 = (2, 1, 0); c06i_alist_2_0_2 = (2, 0, 2); c06i_alist_2_2_2 = (2, 2, 2);
 }
 alist_structure_harness! {
     c06a_alist_0_0_0 = (0, 0, 0); c06a_alist_1_0_0 = (1, 0, 0); c06a_alist_1_1_0 = (1, 1, 0); c06a_alist_1_2_0 = (1, 2, 0);
